@@ -485,6 +485,9 @@ func main() {
 		go func(i int) {
 			defer pwg.Done()
 			defer func() { <-psem }()
+			if atomic.LoadInt64(&failures) >= 2 {
+				return
+			}
 			if i < nA {
 				ar := vh.NewRng(aseeds[i])
 				cfg := genPipeCfg(ar)
@@ -497,13 +500,18 @@ func main() {
 	}
 	pwg.Wait()
 	for i := range pr {
+		if pr[i].obs == "" && pr[i].impl == "" {
+			continue // skipped: the run had already failed
+		}
 		if strings.HasPrefix(pr[i].impl, "fatal") || strings.HasPrefix(pr[i].obs, "fatal") {
 			fmt.Fprintln(os.Stderr, pr[i].impl, pr[i].obs)
 			os.Exit(3)
 		}
 		if i < nA {
-			w := strings.Fields(pr[i].op)
-			out.Case(pr[i].op, pr[i].impl, "pipe/"+w[1]+"/"+w[2], true)
+			if pr[i].op != "" {
+				w := strings.Fields(pr[i].op)
+				out.Case(pr[i].op, pr[i].impl, "pipe/"+w[1]+"/"+w[2], true)
+			}
 			out.Case(pr[i].obs, "accept", "pipeobs/A", true)
 		} else {
 			out.Case(pr[i].obs, "accept", "pipeobs/B", true)
